@@ -24,6 +24,8 @@ CHECKS = {
          "every enumerated (invertible term, algorithm) pair is solved through inv and solve for 4 right-hand sides and judged by the relative residual against the reference matrix; inv(A) is densified and, on direct paths, transposed / left-multiplied and compared with the reference inverse"),
  "C07": ("invertible operator terms (|det| on both sides of 1, both signs / four phases, both permutation parities, scalar operators of several sizes, depth<=2) x 6 (log algorithm, trace algorithm) pairs; determinant of the reference matrix (exact Bareiss cross-check)",
          "for every enumerated (non-singular term, algorithm pair) slogdet's sign and log-magnitude and logdet are compared with the determinant of the exact reference matrix"),
+ "C08": ("square operator terms (depth<=2, incl. square composites of rectangular factors) x EVERY offset -n<k<n x {omitted, Exact, Auto}; probing sizes on both sides of the block size 100; numpy.diag of the reference + differential against probing on no_dispatch(A)",
+         "for every enumerated term, every offset and every exact algorithm setting diag and trace are compared (value, length, dtype) with the reference matrix, and every structural rule with the generic probing algorithm on the same operator"),
 }
 PENDING = {}
 props = [json.loads(l) for l in open(os.path.join(ROOT, "properties.jsonl"))]
